@@ -3,6 +3,7 @@
 package c11
 
 import (
+	"bufio"
 	"bytes"
 	"context"
 	"crypto/sha1"
@@ -12,6 +13,7 @@ import (
 	"io"
 	"math/rand"
 	"net"
+	"net/http"
 	"net/url"
 	"sort"
 	"strings"
@@ -343,8 +345,24 @@ func mutateRequest(t *rapid.T, req []byte) []byte {
 	case 5:
 		i := strings.Index(s, "Sec-WebSocket-Key: ")
 		s = s[:i+19] + "short" + s[i+19+24:]
+	case 6: // a second Host header: fine for ws.Upgrader, refused by net/http's parser
+		s = strings.Replace(s, "\r\n", "\r\nHost: other.example\r\n", 1)
+	case 7: // a header line without a colon: ws.Upgrader answers 400, net/http's parser gives up
+		s = strings.Replace(s, "\r\n", "\r\nthis line has no colon\r\n", 1)
 	}
 	return []byte(s)
+}
+
+// netHTTPParses reports whether net/http's request parser accepts the bytes
+// (the debug wrappers pre-parse with it; what OnRequest receives for a request
+// it cannot parse is left open, the outcome must still be the plain upgrader's).
+func netHTTPParses(req []byte) bool {
+	r, err := http.ReadRequest(bufio.NewReader(bytes.NewReader(req)))
+	if err != nil {
+		return false
+	}
+	r.Body.Close()
+	return true
 }
 
 func TestServerChunkingIndependent(t *testing.T) {
@@ -508,7 +526,7 @@ func TestDebugUpgraderFaithful(t *testing.T) {
 		dbgRec := tx.NewRec()
 		dbgHS, dbgErr := d.Upgrade(tx.RW{Reader: tx.NewSrc(req, chunks), Writer: dbgRec})
 		hx.Eval()
-		hx.Class(fmt.Sprintf("debug-upgrader/ok=%v/cb=%v,%v", plainErr == nil, cbReq, cbResp))
+		hx.Class(fmt.Sprintf("debug-upgrader/ok=%v/cb=%v,%v/nethttp-parses=%v", plainErr == nil, cbReq, cbResp, netHTTPParses(req)))
 		if (cbReq || cbResp) && (len(c.Protocols) > 0 || len(c.Offers) > 0) {
 			hx.NonTrivial(hx.Hash("dbgup", string(req), fmt.Sprint(chunks), cbReq, cbResp), func() interface{} {
 				return map[string]interface{}{"wrapper": "DebugUpgrader", "chunks": chunks, "plain": fmt.Sprint(plainErr, " ", renderHS(plainHS))}
@@ -520,7 +538,7 @@ func TestDebugUpgraderFaithful(t *testing.T) {
 		if !bytes.Equal(plainRec.Bytes(), dbgRec.Bytes()) {
 			t.Fatalf("DebugUpgrader changes the bytes written:\n%q\nvs\n%q", dbgRec.Bytes(), plainRec.Bytes())
 		}
-		if cbReq && !bytes.Equal(gotReq, req) {
+		if cbReq && netHTTPParses(req) && !bytes.Equal(gotReq, req) {
 			t.Fatalf("OnRequest reported\n%q\nthe request on the wire was\n%q", gotReq, req)
 		}
 		if cbResp && !bytes.Equal(gotResp, plainRec.Bytes()) {
@@ -545,10 +563,37 @@ type dialOutcome struct {
 	rest      []byte
 	brNil     bool
 	req, resp []byte
+	// user WrapConn bookkeeping
+	wrapCalls   int
+	wrapRead    int
+	wrapWritten int
+	connIsWrap  bool
+}
+
+// userWrap is a caller-supplied Dialer.WrapConn result: a pass-through that counts the I/O going through it.
+type userWrap struct {
+	net.Conn
+	out *dialOutcome
+}
+
+func (u userWrap) Read(p []byte) (int, error) {
+	n, err := u.Conn.Read(p)
+	u.out.wrapRead += n
+	return n, err
+}
+
+func (u userWrap) Write(p []byte) (int, error) {
+	n, err := u.Conn.Write(p)
+	u.out.wrapWritten += n
+	return n, err
 }
 
 // dialOnce runs Dialer.Dial (plain or through DebugDialer) against the library's own upgrader.
 func dialOnce(c config, debug bool, respChunks []int, trailing []byte, pad int, onReq, onResp *[]byte) dialOutcome {
+	return dialOnceW(c, debug, respChunks, trailing, pad, onReq, onResp, false)
+}
+
+func dialOnceW(c config, debug bool, respChunks []int, trailing []byte, pad int, onReq, onResp *[]byte, wrap bool) dialOutcome {
 	rand.Seed(c.Seed)
 	cc := c
 	if pad >= 0 {
@@ -563,6 +608,12 @@ func dialOnce(c config, debug bool, respChunks []int, trailing []byte, pad int, 
 	d := cc.dialer()
 	d.NetDial = func(ctx context.Context, network, addr string) (net.Conn, error) { return fakeConn{peer}, nil }
 	var out dialOutcome
+	if wrap {
+		d.WrapConn = func(c net.Conn) net.Conn {
+			out.wrapCalls++
+			return userWrap{c, &out}
+		}
+	}
 	var conn net.Conn
 	var br interface {
 		io.Reader
@@ -588,6 +639,7 @@ func dialOnce(c config, debug bool, respChunks []int, trailing []byte, pad int, 
 		}
 	}
 	out.brNil = br == nil
+	_, out.connIsWrap = conn.(userWrap)
 	if out.err == nil {
 		if br != nil {
 			out.rest, _ = io.ReadAll(br)
@@ -622,7 +674,8 @@ func TestDebugDialerFaithful(t *testing.T) {
 				}
 			}
 		}
-		plain := dialOnce(c, false, chunks, trailing, pad, nil, nil)
+		wrap := rapid.IntRange(0, 2).Draw(t, "userWrapConn") == 0
+		plain := dialOnceW(c, false, chunks, trailing, pad, nil, nil, wrap)
 		var gotReq, gotResp []byte
 		var pr, ps *[]byte
 		if cbReq {
@@ -631,8 +684,21 @@ func TestDebugDialerFaithful(t *testing.T) {
 		if cbResp {
 			ps = &gotResp
 		}
-		dbg := dialOnce(c, true, chunks, trailing, pad, pr, ps)
+		dbg := dialOnceW(c, true, chunks, trailing, pad, pr, ps, wrap)
 		hx.Eval()
+		if wrap {
+			hx.Class("debug-dialer/user-wrapconn")
+			// the caller's WrapConn must stay in the path: the handshake goes through it and Dial returns it
+			if plain.wrapCalls != 1 || !plain.connIsWrap || plain.wrapWritten != len(plain.req) {
+				t.Fatalf("harness/plain dialer: WrapConn calls=%d conn-is-wrapper=%v bytes written through it=%d (request %d)", plain.wrapCalls, plain.connIsWrap, plain.wrapWritten, len(plain.req))
+			}
+			if dbg.wrapCalls != 1 || !dbg.connIsWrap {
+				t.Fatalf("DebugDialer with a user WrapConn: WrapConn called %d times, returned conn is the user's wrapper: %v (plain dialer: 1, true)", dbg.wrapCalls, dbg.connIsWrap)
+			}
+			if dbg.wrapWritten != len(dbg.req) || dbg.wrapRead == 0 {
+				t.Fatalf("DebugDialer bypasses the user's WrapConn: %d of %d request bytes written through it, %d bytes read through it", dbg.wrapWritten, len(dbg.req), dbg.wrapRead)
+			}
+		}
 		hx.Class(fmt.Sprintf("debug-dialer/ok=%v/cb=%v,%v/trailing=%v/aligned=%v", plain.err == nil, cbReq, cbResp, len(trailing) > 0, aligned))
 		if cbReq || cbResp {
 			hx.NonTrivial(hx.Hash("dbgdial", string(plain.req), len(plain.resp), fmt.Sprint(chunks), cbReq, cbResp, len(trailing), aligned), func() interface{} {
